@@ -14,3 +14,22 @@ Proof.
   rewrite fs_apply_gvk_mismatch by (destruct (is_match_gvk fs obj); [discriminate|reflexivity]).
   cbn. apply IH; exact H2.
 Qed.
+
+(* FieldSetter's YAML-1.1 guard: a new string-ish scalar that a YAML 1.1 parser would re-type is stored double-quoted;
+   its text and tag are unchanged. [nonstr] is yaml.IsValueNonString (go-yaml v2), an oracle parameter. *)
+Lemma set_field_quotes_new_nonstring nonstr name s kvs t :
+  (t = TStr \/ t = TNone) -> nonstr s = true -> find_field name kvs = None ->
+  set_field nonstr name (Some (Scalar t SPlain s)) false (Map kvs) = Ok (Map (kvs ++ [(name, Scalar t SDouble s)])).
+Proof.
+  intros Ht Hn Hf. unfold set_field. destruct Ht; subst; cbn; rewrite Hf; cbn; rewrite Hn; reflexivity.
+Qed.
+
+Lemma set_field_keeps_text nonstr name v kvs :
+  is_null v = false -> find_field name kvs = None ->
+  exists v', set_field nonstr name (Some v) false (Map kvs) = Ok (Map (kvs ++ [(name, v')])) /\
+             node_value v' = node_value v.
+Proof.
+  intros Hn Hf. unfold set_field. rewrite Hn. cbn. rewrite Hf. eexists; split; [reflexivity|].
+  destruct v as [t s x| |]; cbn; try reflexivity.
+  destruct s; try reflexivity. destruct t; try reflexivity; destruct (nonstr x); reflexivity.
+Qed.
